@@ -29,7 +29,7 @@ func init() { register("deep-dec", deepDec) }
 
 func deepDec(args []string) error {
 	fl := flag.NewFlagSet("deep-dec", flag.ExitOnError)
-	n := fl.Int("n", 6000000, "drawing opcodes in the path")
+	n := fl.Int("n", 9000000, "drawing opcodes in the path")
 	fl.Parse(args)
 	src := append([]byte(ivg.Magic), 0x00, 0xc0, 0x80, 0x80)
 	for i := 0; i < *n; i++ {
